@@ -507,7 +507,9 @@ class Server(utils.EventEmitter):
                 logger.warning(color('!!! GATT Indicate timeout', 'red'))
                 raise TimeoutError(f'GATT timeout for {indication.name}') from error
             finally:
-                self.pending_confirmations[bearer] = None
+                # Drop the entry rather than resetting it, so that nothing is left
+                # behind for a bearer that went away while we were waiting.
+                self.pending_confirmations.pop(bearer, None)
 
     async def _notify_or_indicate_subscribers(
         self,
